@@ -149,8 +149,17 @@ def finish(prop, tier, obs, t0, level, functions, assumptions, trusted_base, che
     backends = sorted(set(o.backend for o in obs))
     solver_s = round(sum(o.seconds for o in obs), 2)
     fns = sorted(set(functions) | set(f for o in obs for f in o.functions))
+    by_engine = {}
+    for o in obs:
+        if o.status == SKIPPED:
+            continue
+        key = "%s/%s" % (o.engine, o.kind)
+        d = by_engine.setdefault(key, {"total": 0, "discharged": 0})
+        d["total"] += 1
+        d["discharged"] += 1 if o.status == DISCHARGED else 0
     cov = {
         "obligations": n_ob,
+        "obligations_by_engine_and_kind": by_engine,
         "discharged": n_dis,
         "checker_cmd": checker_cmd,
         "trusted_base": trusted_base,
